@@ -55,8 +55,8 @@ impl Matcher for SingleExecMatcher {
     fn matches(&self, file_info: &WalkEntry, _: &mut MatcherIO) -> bool {
         let mut command = Command::new(&self.executable);
         let path_to_file = if self.exec_in_parent_dir {
-            if let Some(f) = file_info.path().file_name() {
-                Path::new(".").join(f)
+            if file_info.parent().is_some() {
+                Path::new(".").join(file_info.file_name())
             } else {
                 Path::new(".").join(file_info.path())
             }
@@ -71,7 +71,7 @@ impl Matcher for SingleExecMatcher {
             };
         }
         if self.exec_in_parent_dir {
-            match file_info.path().parent() {
+            match file_info.parent() {
                 None => {
                     // Root paths like "/" have no parent.  Run them from the root to match GNU find.
                     command.current_dir(file_info.path());
@@ -146,8 +146,8 @@ impl MultiExecMatcher {
 impl Matcher for MultiExecMatcher {
     fn matches(&self, file_info: &WalkEntry, matcher_io: &mut MatcherIO) -> bool {
         let path_to_file = if self.exec_in_parent_dir {
-            if let Some(f) = file_info.path().file_name() {
-                Path::new(".").join(f)
+            if file_info.parent().is_some() {
+                Path::new(".").join(file_info.file_name())
             } else {
                 Path::new(".").join(file_info.path())
             }
@@ -160,7 +160,7 @@ impl Matcher for MultiExecMatcher {
         // Build command, or dispatch it before when it is long enough.
         if command.try_arg(&path_to_file).is_err() {
             if self.exec_in_parent_dir {
-                match file_info.path().parent() {
+                match file_info.parent() {
                     None => {
                         // Root paths like "/" have no parent.  Run them from the root to match GNU find.
                         command.current_dir(file_info.path());
